@@ -125,6 +125,13 @@ func (n *Node) exit(code int) {
 	// crashed from here on (it checks Exits() after every step).
 }
 
+// Exited reports whether Store.Exit was called on this node.
+func (n *Node) Exited() bool {
+	n.mu.Lock()
+	defer n.mu.Unlock()
+	return len(n.exits) > 0
+}
+
 func (n *Node) Exits() []ExitEvent {
 	n.mu.Lock()
 	defer n.mu.Unlock()
